@@ -76,7 +76,8 @@ class proxy_info:
         else:
             self.proxy_port = 0
             self.auth = None
-            self.no_proxy = None
+            # the no_proxy option also exempts hosts from a proxy taken from the environment
+            self.no_proxy = options.get("http_no_proxy", None)
             self.proxy_protocol = "http"
 
 
